@@ -158,7 +158,7 @@ func (db *SpecDB) LoadFile(path, defaultPkg string, lib bool) error {
 		if len(first) > 0 {
 			kw = first[0]
 		}
-		if clauseKeywords[kw] || strings.HasPrefix(l.text, "assert@") || len(joined) == 0 {
+		if clauseKeywords[kw] || strings.HasPrefix(l.text, "assert@") || strings.HasPrefix(l.text, "cbinv@") || len(joined) == 0 {
 			joined = append(joined, l)
 		} else {
 			joined[len(joined)-1].text += " " + l.text
@@ -474,13 +474,23 @@ func (db *SpecDB) LoadFile(path, defaultPkg string, lib bool) error {
 						fail(l.no, "unknown loop clause %q", k2)
 					}
 				}
-			case strings.HasPrefix(text, "assert@"):
+			case strings.HasPrefix(text, "assert@"), strings.HasPrefix(text, "cbinv@"):
+				// cbinv@call(F,k): an invariant of the callback handed to the k-th call of F (a higher-order
+				// iteration): proved at the call, assumed after it; that every invocation of the callback preserves
+				// it is the callback's own contract (requires/ensures the same expression)
+				post := strings.HasPrefix(text, "cbinv@")
+				if post {
+					text = "assert@" + strings.TrimPrefix(text, "cbinv@")
+				}
 				col := strings.Index(text, "):")
 				if col < 0 {
 					fail(l.no, "assert@ clause needs '):'")
 					continue
 				}
 				label := text[len("assert@") : col+1]
+				if post {
+					label = "post:" + label
+				}
 				e, err := ParseExpr(text[col+2:])
 				if err != nil {
 					fail(l.no, "%v", err)
